@@ -398,6 +398,8 @@ def vec_len(it, args, n, f):
         it.emit("arena_len", table=v.arena.name, key=key)
         return SymV(key)
     if isinstance(v, VecV):
+        if v.obj.base is None:
+            return IntV(len(v.obj.items))        # a vector whose whole content is known
         return SymV("len(%s)" % v.obj.name)
     raise Unrecognised("len on %r" % (v,))
 
